@@ -155,6 +155,10 @@ func c01Sources(p string) []c01Expr {
 		{"slice-of-named-strings", "pslugs", c01Val{[]c01Atom{{"optplain", p}}, false, false}},
 		{"named-string-struct-field", "pslugst.S", c01Val{[]c01Atom{{"optplain", p}}, false, false}},
 		{"debug-of-string", "debug(pv)", c01Val{[]c01Atom{{"trusted", "<pre>"}, {"plain", p}, {"trusted", "</pre>"}}, false, false}},
+		{"debug-of-array-literal", "debug([pv])", c01Val{[]c01Atom{{"trusted", "<pre>"}, {"plain", "[" + p + "]"}, {"trusted", "</pre>"}}, false, false}},
+		{"debug-of-go-slice", "debug(psl)", c01Val{[]c01Atom{{"trusted", "<pre>"}, {"plain", "[" + p + "]"}, {"trusted", "</pre>"}}, false, false}},
+		{"debug-of-hash-literal", `debug({"k": pv})`, c01Val{[]c01Atom{{"trusted", "<pre>"}, {"plain", "map[k:" + p + "]"}, {"trusted", "</pre>"}}, false, false}},
+		{"debug-of-struct", "debug(ps)", c01Val{[]c01Atom{{"trusted", "<pre>"}, {"plain", "{F:" + p + "}"}, {"trusted", "</pre>"}}, false, false}},
 	}
 	if !strings.ContainsAny(p, "\"\\") && p != "" {
 		s = append(s, c01Expr{"literal", `"` + p + `"`, c01Plain(p)})
@@ -531,6 +535,11 @@ func c01Run(t *engine.T, shard string) {
 						{`<% thm["n"] = ` + x.src + ` %><%= thm["n"] %>`, x.val.atoms},
 						{`<% thil[0] = ` + x.src + ` %><%= thil %>`, x.val.atoms},
 						{`<%= thil + ` + x.src + ` %>`, append([]c01Atom{tr}, x.val.atoms...)},
+						// two lists built from one base list (a literal of three elements has room for a fourth): each keeps its own last element
+						{`<% let b3 = ["a", "b", "c"] %><% let s1 = b3 + ` + x.src + ` %><% let s2 = b3 + raw("<b>T</b>") %><%= s1 %>`, append([]c01Atom{{"lit", "abc"}}, x.val.atoms...)},
+						{`<% let b3 = ["a", "b", "c"] %><% let s2 = b3 + raw("<b>T</b>") %><% let s1 = b3 + ` + x.src + ` %><%= s2 %>|<%= s1 %>`, append([]c01Atom{{"lit", "abc"}, tr, {"lit", "|abc"}}, x.val.atoms...)},
+						{`<% let b5 = [1, 2, 3, 4, 5] %><% let s1 = b5 + ` + x.src + ` %><% let s2 = b5 + raw("<b>T</b>") %><% let s3 = b5 + "<i>" %><%= s1 %>|<%= s2 %>`, append(append([]c01Atom{{"lit", "12345"}}, x.val.atoms...), c01Atom{"lit", "|12345"}, tr)},
+						{`<% let b3 = psl + "b" + "c" %><% let s1 = b3 + ` + x.src + ` %><% let s2 = b3 + "<u>" %><%= s1[3] %>`, x.val.atoms},
 					} {
 						f := f
 						src := c01Prelude + "A|" + f.src + "|B"
